@@ -61,6 +61,9 @@ class Concretizer:
         if ov is not None:
             typ = ov
         k = typ[0]
+        if k in ('key', 'map', 'set', 'kseq'):   # containers
+            from . import containers
+            return containers.concretize_entry(self, typ, name)
         if k == 'int':
             return _ev(self.model, z3.Int(name))
         if k == 'bool':
@@ -174,7 +177,21 @@ class Concretizer:
                     'fields': {k: self.value(x, depth + 1) for k, x in v.fields.items()}}
         if isinstance(v, Opaque):
             return {'$opaque': v.tag}
+        from . import containers   # containers
+        if isinstance(v, (containers.SymKey,) + containers.SYM):
+            return containers.concretize_value(self, v)
         return {'$opaque': repr(v)}
+
+
+def _gv(v):
+    """model value of a ghost argument/result: int, bool, or the name of a key-universe element"""
+    if z3.is_int_value(v):
+        return v.as_long()
+    if z3.is_true(v):
+        return True
+    if z3.is_false(v):
+        return False
+    return str(v)
 
 
 def ghost_values(model):
@@ -188,12 +205,14 @@ def ghost_values(model):
             if isinstance(fi, z3.FuncInterp):
                 for i in range(fi.num_entries()):
                     e = fi.entry(i)
-                    args = [e.arg_value(j).as_long() for j in range(e.num_args())]
-                    ent['table'].append([args, e.value().as_long()])
+                    args = [_gv(e.arg_value(j)) for j in range(e.num_args())]
+                    ent['table'].append([args, _gv(e.value())])
                 ev = fi.else_value()
                 try:
-                    ent['else'] = ev.as_long()
+                    ent['else'] = _gv(ev)
                 except Exception:
+                    ent['else'] = 0
+                if isinstance(ent['else'], str):
                     ent['else'] = 0
             out[nm[len('ghost_'):]] = ent
     return out
